@@ -306,6 +306,8 @@ def _setup_member(tr, m, w, cl, emit, by_client, srv_by_corr, rng, ConsumerGroup
                 elif isinstance(res, list) and res:
                     errs = [x.get("error", 0) for x in res if isinstance(x, dict)]
                     err = next((x for x in errs if x), 0)
+            if srv is not None and (srv.get("action") or {}).get("kind") == "garbage":
+                err = "malformed-reply"  # what the member decodes from it is its own affair
             r["done"] = dict(t=w.clock.seconds(), step=w.clock.steps, ok=ok,
                              failure=(type(result.value).__name__ if not ok else None), srv_error=err, srv=srv)
             emit(m.name, "req_done", api=r["api"], corr=r["corr"], ok=ok, failure=r["done"]["failure"],
